@@ -11,7 +11,7 @@ for d in seeded/C*; do
   n=$(basename $d)
   git -C $REPO diff --quiet || { echo "/repo dirty"; exit 2; }
   git -C $REPO apply /verif/$d/patch.diff || continue
-  res=$(printf "%s\n" $PROPS | xargs -P 10 -I{} sh -c 'r=$($BIN -prop {} -repo $REPO -known /verif/known_findings.json -evidence "" 2>&1 | grep -A1 "^VIOLATION" | grep "^  C" | awk "{print \$1}" | sed "s/^{}\.//" | sort -u | tr "\n" "," | sed "s/,$//"); [ -n "$r" ] && echo "{}: $r"' | sort | tr "\n" ";" | sed 's/;$//; s/;/; /g')
+  res=$(printf "%s\n" $PROPS | xargs -P ${PAR:-10} -I{} sh -c 'r=$($BIN -prop {} -repo $REPO -known /verif/known_findings.json -evidence "" 2>&1 | grep -A1 "^VIOLATION" | grep "^  C" | awk "{print \$1}" | sed "s/^{}\.//" | sort -u | tr "\n" "," | sed "s/,$//"); [ -n "$r" ] && echo "{}: $r"' | sort | tr "\n" ";" | sed 's/;$//; s/;/; /g')
   git -C $REPO checkout -- . && git -C $REPO clean -fdq
   echo "| $n | $(jq -r .property $d/meta.json) | ${res:-MISSED} |" >> $out
 done
